@@ -309,6 +309,10 @@ def run(ctx):
     d4_provenance(ctx, rm)
     from . import c06
     c06.bundler_forgotten_only_after_successful_close(ctx, rm, "C01.D2-forgotten-only-after-successful-close")
+    # nothing after the stop: a monitor is the one emitter that is not driven by the plan; it must be gone (or close_run must fail) before the stop
+    from . import c41
+
+    c41.monitor_forgotten_only_after_unsubscribed(ctx, rm, "C01.D2-no-monitor-events-after-stop")
     ctx.extra.update(tail.g.stats())
 
 
